@@ -152,14 +152,14 @@ AbortOp(b) ==
       b3 == InvalidateCreating(b2, CreSet(b2.cn.creating))
   IN TpcCleanup(b3)
 
-\* Connection.tpc_abort(transaction)   (_modified is left as it is: it is reset by the next tpc_begin)
+\* Connection.tpc_abort(transaction)   (PickleCache.invalidate empties the list it is given: _modified)
 TpcAbortOp(b) ==
   LET b1 == IF b.tmp.on THEN AbortSavepoint(b) ELSE b
       inv == IF InvalidateDoomed THEN b1.cn.modified ELSE b1.cn.modified \ CreSet(b1.cn.creating)
       b2 == InvalidateSet(b1, inv)
       b3 == InvalidateCreating(b2, CreSet(b2.cn.creating))
       b4 == [b3 EXCEPT !.ob = [o \in All |-> IF o \in b3.cn.added THEN Disown(b3.ob[o]) ELSE b3.ob[o]],
-                       !.cn.added = {}]
+                       !.cn.added = {}, !.cn.modified = {}]
   IN TpcCleanup(b4)
 
 \* afterCompletion / open -> newTransaction: the snapshot moves to the end of the history and the objects
@@ -238,15 +238,16 @@ ObsOf(h, b, c, extra) ==
    mon |-> Mon(h, b, c) \cup extra]
 SetObs(extra) == obs' = ObsOf(hist', [ob |-> ob', cn |-> cn', tmp |-> tmp', sps |-> sps'], cm', extra)
 
-\* the state of a non-blob object was lost by an earlier step: the run is over (the violation is there)
-Live == \A o \in All \ Blobs : ob[o].own \/ ob[o].flag # "ghost"
+\* a clause of C11 / C12 does not hold in this state (a deviation of the code showed): the run ends here - the
+\* violation is what there is to see, and what the code does with a dangling or emptied object is not modelled
+Live == obs.mon = {}
 App == cm.pc = "idle" /\ cn.opened /\ Live
 
 (* --------------------------------- Init -------------------------------- *)
 Init ==
   /\ ob = [o \in All |-> IF o = Root THEN [own |-> TRUE, cached |-> TRUE, flag |-> "ghost", serial |-> 0, st |-> GhostSt]
                          ELSE [own |-> FALSE, cached |-> FALSE, flag |-> "clean", serial |-> 0, st |-> St(V0, <<>>)]]
-  /\ cn = [reg |-> <<>>, added |-> {}, creating |-> NoCre, modified |-> {}, joined |-> FALSE, opened |-> TRUE, start |-> 1]
+  /\ cn = [reg |-> <<>>, added |-> {}, creating |-> NoCre, modified |-> {Root}, joined |-> FALSE, opened |-> TRUE, start |-> 1]
   /\ tmp = NoTmp /\ sps = <<>>
   /\ hist = << [by |-> "c", w |-> [o \in All |-> IF o = Root THEN St(V0, <<>>) ELSE Absent]] >>
   /\ cm = Idle
